@@ -488,6 +488,10 @@ tableconstructor:
         '{' fieldlist '}' {
             $$ = &ast.TableExpr{Fields: $2}
             $$.SetLine($1.Pos.Line)
+        } |
+        '{' fieldlist fieldsep '}' {
+            $$ = &ast.TableExpr{Fields: $2}
+            $$.SetLine($1.Pos.Line)
         }
 
 
@@ -497,9 +501,6 @@ fieldlist:
         } | 
         fieldlist fieldsep field {
             $$ = append($1, $3)
-        } | 
-        fieldlist fieldsep {
-            $$ = $1
         }
 
 field:
